@@ -174,9 +174,13 @@ def run(ctx):
         if not c['has_p1'] or c['name'] == 'MeasurementDetails' or c.get('synthetic'):
             continue
         for t0 in (1.0, 1000.0, 5000.0, 90000.0, 1.0e6, 1.3e9):
-            for op in ('slide', 'slide-add', 'replace-shifted', 'replace-middle', 'append', 'same'):
-                for n in ((2, 5) if not ctx.thorough else (1, 2, 3, 5, 9)):
-                    if op == 'replace-middle' and n < 3:
+            for op in ('slide', 'slide-add', 'replace-shifted', 'replace-middle', 'append', 'same', 'assign-sublist-keep-ends', 'assign-longer-keep-ends',
+                       'slice-assign', 'slice-assign-longer', 'del-middle', 'pop-middle', 'insert-middle', 'extend', 'reverse', 'sort-descending',
+                       'align-drop', 'align-insert'):
+                for n in ((2, 5) if not ctx.thorough else (1, 2, 3, 5, 9)) if t0 in (1.0, 5000.0, 1.3e9) or ctx.thorough or op in ('slide', 'replace-shifted') else (5,):
+                    if n < 3 and op in ('replace-middle', 'assign-sublist-keep-ends', 'slice-assign', 'del-middle', 'pop-middle', 'align-drop'):
+                        continue
+                    if op.startswith('align') and not c.get('aligned_by_code'):
                         continue
                     dt = r.choice([0.01, 0.1, 1.0])
                     hist.append({'history': {'cls': c['name'], 'n': n, 't0': t0, 'dt': dt, 'shift': r.choice([dt, dt / 2, 0.001]), 'op': op},
@@ -228,7 +232,7 @@ def run(ctx):
             if iss['kind'] == 'nan-removal-inconsistent':
                 sig['ndim'] = iss['ndim']
             if iss['kind'] == 'arrays-do-not-describe-the-current-messages':
-                sig['op'] = iss['op']; sig['first_last_time_changed'] = iss['first_last_time_changed']
+                sig['op'] = iss['op']; sig['first_last_time_changed'] = iss['first_last_time_changed']; sig['same_count'] = iss['same_count']
             if iss['kind'] == 'output-depends-on-field-container-type':
                 sig['representation'] = iss['representation']
             if iss['kind'] in ('repeated-conversion-raises', 'conversion-raises'):
@@ -264,14 +268,14 @@ def run(ctx):
         ctx.sample({'request': strip(q), 'keys': d.get('keys'), 'stats': d.get('stats'), 'issues': d.get('issues')})
     ctx.coverage['rule'] = ('every class of message_type_to_class plus MeasurementDetails (%d; %d through the generic _message_to_numpy path) x message lists of length 0..%d '
                             'x %s subsets of invalid P1 times x enum-choice variants; every numeric leaf of every message (recursively through embedded objects) holds a '
-                            'value distinct between messages and between fields, timestamps carry a 9-digit fraction. Compared: every output named like a field of the '
+                            'value distinct between messages and between fields, timestamps carry a 9-digit fraction; every integer attribute spans the whole range its wire field accepts (found by packing), top bit and minimum included, mixed with small values in one list and compared exactly as integers. Compared: every output named like a field of the '
                             'message or of its embedded details against the field values (enums as ints, Timestamp as float seconds, NaN = NaN), its time axis found by '
                             'appending one message; declared time-independent outputs against the first message; every non-opaque generated row interpreted on the same '
                             'messages against the output; MessageData.to_numpy(remove_nan_times=True) against the raw arrays with the invalid positions removed along '
                             'the time axis, and against the extracted model and SPEC of the removal. Each class is also converted from the pack->unpack image and from the stream decoder output of its messages (compared with Python-built twins holding the same values), '
                             'on synthetic payload classes with a single scalar / single vector field using the default conversion, on long lists (48 messages quick, 300 thorough), '
                             'given as list and as tuple, twice (results repeatable, earlier results and the messages untouched), through MessageData.to_numpy, DataLoader.to_numpy(dict) and with keep_*=False, '
-                            'with the time source forced to INVALID, and in histories on one MessageData (convert; slide / replace / append / keep; convert again) at P1 times 1 s .. 1.3e9 s. '
+                            'with the time source forced to INVALID, and in histories on one MessageData (convert; change the list in every way - assign shorter/longer/sub-list keeping first and last, slice assignment, del, pop, insert, extend, reverse, sort, add_message, time_align_data DROP/INSERT - convert again) at P1 times 1 s .. 1.3e9 s. '
                             'A case is distinct by (class, length, invalid positions, variant, representation, history).'
                             % (len(classes), sum(1 for c in classes if c['resolved'].split('.')[0] == table['generic_base']), N,
                                'all (length <= 4) / sampled' if ctx.thorough else 'all'))
